@@ -111,7 +111,7 @@ impl CoreDID {
   ///
   /// Returns `Err` if the input is not a valid [`DID`].
   pub fn parse(input: impl AsRef<str>) -> Result<Self, Error> {
-    BaseDIDUrl::parse(input).map(Self).map_err(Error::from)
+    Self::try_from(BaseDIDUrl::parse(input)?)
   }
 
   /// Set the method name of the [`DID`].
@@ -192,6 +192,14 @@ impl TryFrom<BaseDIDUrl> for CoreDID {
   type Error = Error;
 
   fn try_from(base_did_url: BaseDIDUrl) -> Result<Self, Self::Error> {
+    // The parser skips leading and trailing whitespace and control characters but keeps them in the string it
+    // stores, which shifts every component: `" did:example:123"` would have the method `":exampl"`.
+    let is_edge = |ch: char| ch.is_ascii_control() || ch.is_ascii_whitespace();
+    if base_did_url.as_str().starts_with(is_edge) || base_did_url.as_str().ends_with(is_edge) {
+      return Err(Error::InvalidScheme);
+    }
+    // A DID has no path, query or fragment, and its components have to satisfy the DID syntax.
+    Self::check_validity(&base_did_url)?;
     Ok(Self(base_did_url))
   }
 }
